@@ -3,6 +3,8 @@
 // whose gaps are derived from the queue's own numbers so that coincidences are forced.
 #include "runner.hpp"
 #include "world.hpp"
+#include <deque>
+#include <set>
 
 using namespace vf;
 using sim::aux::packet;
@@ -236,6 +238,151 @@ struct Exec
 	}
 };
 
+
+// ---------------------------------------------------------------------------------------------
+// second family: the same per-hop oracle applied to the packets of real traffic (TCP transfers with
+// their ACKs and retransmissions, UDP bursts) flowing through monitored queues - arrival sequences
+// of hundreds of packets with the coincidences real sockets produce (replies generated at delivery,
+// retransmissions entering a backlogged queue, both directions sharing one queue)
+// ---------------------------------------------------------------------------------------------
+struct QMon
+{
+	QCfg c; std::string name;
+	struct Held { uint64_t key; int size; int64_t arr; int held_before; };
+	std::deque<Held> held; int held_bytes = 0; int64_t last_dep = -1; std::multiset<uint64_t> model_dropped;
+	std::vector<std::string> f09, f10; uint64_t n_in = 0, n_out = 0, n_drop = 0, backlogged = 0;
+	static uint64_t key_of(packet const& p)
+	{
+		uint64_t h = fnv(p.buffer.data(), p.buffer.size());
+		h ^= p.seq_nr * 0x9e3779b97f4a7c15ull; h ^= uint64_t(p.type) << 56; h ^= uint64_t(p.overhead) << 40; h ^= uint64_t(p.from.port()) << 20;
+		return h;
+	}
+	void f9(std::string const& x) { if (f09.size() < 6) f09.push_back(name + " " + x); }
+	void f10_(std::string const& x) { if (f10.size() < 6) f10.push_back(name + " " + x); }
+	void arrive(packet const& p)
+	{
+		++n_in; int size = int(p.buffer.size()) + p.overhead; int64_t t = now_ns();
+		bool droppable = p.type == packet::type_t::syn || p.type == packet::type_t::payload;
+		if (c.cap > 0 && droppable && held_bytes + size > c.cap) { model_dropped.insert(key_of(p)); ++n_drop; return; }
+		held.push_back(Held{ key_of(p), size, t, held_bytes }); held_bytes += size;
+	}
+	void depart(packet const& p)
+	{
+		++n_out; int64_t t = now_ns(); uint64_t key = key_of(p); int size = int(p.buffer.size()) + p.overhead;
+		if (held.empty() || held.front().key != key) {
+			size_t pos = 0; while (pos < held.size() && held[pos].key != key) ++pos;
+			if (pos == held.size()) {
+				auto it = model_dropped.find(key);
+				if (it != model_dropped.end()) { model_dropped.erase(it); f10_(fmt("drop_iff: a %d-byte droppable packet (seq %llu) was forwarded at %lld although the bytes held when it arrived plus its size exceeded the capacity %d", size, (unsigned long long)p.seq_nr, (long long)t, c.cap)); }
+				else f10_(fmt("conservation: a packet (seq %llu, %d bytes) left the queue at %lld that it does not hold (duplicated or altered)", (unsigned long long)p.seq_nr, size, (long long)t));
+				return;
+			}
+			// packets in front of it never left: either overtaken (FIFO) or dropped although they fitted
+			for (size_t i = 0; i < pos; ++i) { Held const& h = held.front(); f10_(fmt("drop_iff: a %d-byte packet that arrived at %lld with %d bytes held (capacity %d) never left the queue; a later arrival left at %lld (dropped although it fitted, lost, or overtaken)", h.size, (long long)h.arr, h.held_before, c.cap, (long long)t)); held_bytes -= h.size; held.pop_front(); }
+		}
+		Held h = held.front(); held.pop_front(); held_bytes -= h.size;
+		int64_t start = std::max(last_dep, h.arr + c.lat); int64_t expect = start + ser_ns(c.bw, h.size);
+		if (last_dep > h.arr + c.lat) ++backlogged;
+		if (t < expect - 1 || t > expect + 1) f9(fmt("timing: a %d-byte packet that arrived at %lld left at %lld; max(previous departure %lld, arrival + latency %lld) + serialisation %lld = %lld", h.size, (long long)h.arr, (long long)t, (long long)last_dep, (long long)(h.arr + c.lat), (long long)ser_ns(c.bw, h.size), (long long)expect));
+		last_dep = t;
+	}
+	void finish() { if (!held.empty()) f9(fmt("never_idle: %zu packet(s) (%d bytes) still held at quiescence", held.size(), held_bytes)); }
+};
+
+struct MonTap : sim::sink
+{
+	QMon* m; bool in;
+	MonTap(QMon* mm, bool i) : m(mm), in(i) {}
+	void incoming_packet(packet p) override { if (in) m->arrive(p); else m->depart(p); sim::forward_packet(std::move(p)); }
+	std::string label() const override { return in ? "mon-in" : "mon-out"; }
+};
+
+struct TrafficCfg { int shape, bw; int64_t lat; int cap, traffic; };
+std::string traffic_str(TrafficCfg const& t)
+{
+	static const char* sh[] = { "one queue shared by both directions", "one queue per direction", "three hops (out, net, in)" };
+	static const char* tr[] = { "TCP bulk 40 kB one way", "TCP ping-pong 6 x 3000 bytes", "TCP bulk both ways + UDP burst" };
+	return fmt("%s bw=%d lat=%lldns cap=%d, %s", sh[t.shape], t.bw, (long long)t.lat, t.cap, tr[t.traffic]);
+}
+
+struct TrafficResult { std::vector<std::string> f09, f10; uint64_t in = 0, out = 0, drops = 0, backlogged = 0; std::string summary; };
+
+TrafficResult run_traffic(TrafficCfg const& tc, Ctx* ctx)
+{
+	TrafficResult R;
+	std::vector<std::unique_ptr<QMon>> mons;
+	World w;
+	auto mk = [&](World& ww, const char* nm) {
+		mons.emplace_back(new QMon); QMon* m = mons.back().get(); m->c = QCfg{ tc.bw, tc.lat, tc.cap }; m->name = nm;
+		auto q = ww.queue(tc.bw, ns(tc.lat), tc.cap, nm);
+		return World::hops_t{ std::make_shared<MonTap>(m, true), q, std::make_shared<MonTap>(m, false) };
+	};
+	w.on_build = [&](World& ww, sim::simulation&) {
+		if (tc.shape == 0) { auto h = mk(ww, "shared"); ww.chan = [h](ip::address, ip::address) { return h; }; }
+		else if (tc.shape == 1) { auto ab = mk(ww, "A->B"), ba = mk(ww, "B->A"); ww.chan = [ab, ba](ip::address a, ip::address) { return a == addr("10.0.0.1") ? ab : ba; }; }
+		else { ww.out[addr("10.0.0.1")] = mk(ww, "out(A)"); ww.out[addr("10.0.1.1")] = mk(ww, "out(B)"); ww.in[addr("10.0.1.1")] = mk(ww, "in(B)"); ww.in[addr("10.0.0.1")] = mk(ww, "in(A)");
+			auto n = mk(ww, "net"); ww.chan = [n](ip::address, ip::address) { return n; }; }
+	};
+	sim::simulation sim(w);
+	asio::io_context nA(sim, addr("10.0.0.1")), nB(sim, addr("10.0.1.1"));
+	struct Conn { ip::tcp::socket c, s; ip::tcp::acceptor a; std::string wc, ws; size_t sc = 0, ss = 0, rc = 0, rs = 0; std::vector<char> bc, bs; int rounds = 0;
+		Conn(asio::io_context& x, asio::io_context& y) : c(x), s(y), a(y) {} };
+	Conn k(nA, nB);
+	k.a.open(ip::tcp::v4()); k.a.bind(ip::tcp::endpoint(addr("10.0.1.1"), 6000)); k.a.listen();
+	int const n_c = tc.traffic == 1 ? 3000 : 40000, n_s = tc.traffic == 2 ? 25000 : (tc.traffic == 1 ? 3000 : 0);
+	k.wc.resize(size_t(n_c)); k.ws.resize(size_t(n_s)); for (size_t i = 0; i < k.wc.size(); ++i) k.wc[i] = char(i * 7 + 1); for (size_t i = 0; i < k.ws.size(); ++i) k.ws[i] = char(i * 5 + 2);
+	std::function<void(bool)> writer, reader; uint64_t handlers = 0; bool over_budget = false;
+	writer = [&](bool cl) { std::string& d = cl ? k.wc : k.ws; size_t& sent = cl ? k.sc : k.ss; if (sent >= d.size()) return;
+		(cl ? k.c : k.s).async_write_some(asio::buffer(d.data() + sent, d.size() - sent), [&, cl](error_code const& ec, std::size_t n) { if (ec || ++handlers > 400000) { over_budget = handlers > 400000; return; } (cl ? k.sc : k.ss) += n; writer(cl); }); };
+	reader = [&](bool cl) { std::vector<char>& b = cl ? k.bc : k.bs; b.resize(2000);
+		(cl ? k.c : k.s).async_read_some(asio::buffer(b), [&, cl](error_code const& ec, std::size_t n) { if (ec || ++handlers > 400000) return; size_t& got = cl ? k.rc : k.rs; got += n;
+			if (tc.traffic == 1) { // ping-pong: a complete message is answered by the other side's message
+				if (!cl && got >= k.wc.size() * size_t(k.rounds + 1)) { k.ss = 0; writer(false); }
+				if (cl && got >= k.ws.size() * size_t(k.rounds + 1)) { if (++k.rounds < 6) { k.sc = 0; writer(true); } } }
+			reader(cl); }); };
+	k.a.async_accept(k.s, [&](error_code const& ec) { if (ec) return; reader(false); if (tc.traffic == 2) writer(false); });
+	k.c.async_connect(ip::tcp::endpoint(addr("10.0.1.1"), 6000), [&](error_code const& ec) { if (ec) return; reader(true); writer(true); });
+	ip::udp::socket ua(nA), ub(nB); std::vector<char> ubuf(2000); int udp_got = 0; std::function<void()> ur;
+	asio::high_resolution_timer ut(nB);
+	if (tc.traffic == 2) {
+		ua.open(ip::udp::v4()); ua.bind(ip::udp::endpoint(addr("10.0.0.1"), 4500)); ub.open(ip::udp::v4()); ub.bind(ip::udp::endpoint(addr("10.0.1.1"), 5500)); ub.non_blocking(true);
+		ur = [&]() { ua.async_receive(asio::buffer(ubuf), [&](error_code const& ec, std::size_t) { if (ec) return; ++udp_got; ur(); }); }; ur();
+		ut.expires_after(ms(3)); ut.async_wait([&](error_code const&) { std::string pl(1200, 'u'); for (int i = 0; i < 12; ++i) { pl[0] = char('a' + i); error_code ec; ub.send_to(asio::buffer(pl), ip::udp::endpoint(addr("10.0.0.1"), 4500), 0, ec); } });
+	}
+	// horizon: a transfer that cannot make progress retransmits for ever; the queues are judged on what happened until then
+	asio::high_resolution_timer horizon(sim.get_io_context()); bool hit_horizon = false;
+	horizon.expires_after(std::chrono::seconds(120)); horizon.async_wait([&](error_code const& ec) { if (ec) return; hit_horizon = true; sim.stop(); });
+	struct CancelHorizon { asio::high_resolution_timer& t; uint64_t last = 0; } ch{ horizon };
+	// (the horizon timer itself keeps run() from returning early: cancel it once the traffic is done)
+	std::function<void()> watch; asio::high_resolution_timer wt(sim.get_io_context());
+	watch = [&]() { wt.expires_after(ms(500)); wt.async_wait([&](error_code const& ec) { if (ec) return;
+		uint64_t n = 0; for (auto& m : mons) n += m->n_in + m->n_out;
+		bool idle = n == ch.last; for (auto& m : mons) if (!m->held.empty()) idle = false;
+		// nothing awaiting (re)transmission or acknowledgement on either socket, no write parked
+		for (ip::tcp::socket* x : { &k.c, &k.s }) if (x->m_bytes_in_flight != 0 || !x->m_outgoing_packets.empty() || x->m_send_handler) idle = false;
+		if (idle) { horizon.cancel(); return; } ch.last = n; watch(); }); };
+	watch();
+	sim.run();
+	if (hit_horizon) { error_code ig2; k.c.close(ig2); k.s.close(ig2); wt.cancel(); sim.restart(); }
+	for (auto& m : mons) { if (!hit_horizon) m->finish(); for (auto& f : m->f09) R.f09.push_back(f); for (auto& f : m->f10) R.f10.push_back(f); R.in += m->n_in; R.out += m->n_out; R.drops += m->n_drop; R.backlogged += m->backlogged; }
+	if (over_budget) R.f09.push_back("livelock: handler budget exceeded");
+	if (hit_horizon) R.summary = "[stopped at the 120 s horizon] ";
+	R.summary += fmt("%llu packets into queues, %llu out, %llu dropped by the model, %llu departures while backlogged; tcp %zu/%zu %zu/%zu udp %d", (unsigned long long)R.in, (unsigned long long)R.out, (unsigned long long)R.drops, (unsigned long long)R.backlogged, k.rs, k.wc.size(), k.rc, k.ws.size(), udp_got);
+	if (ctx) ctx->R.transitions += R.in + R.out;
+	error_code ig; ua.cancel(ig); k.c.close(ig); k.s.close(ig); k.a.close(ig); sim.run();
+	return R;
+}
+
+std::vector<TrafficCfg> make_traffic(bool thorough)
+{
+	std::vector<TrafficCfg> v;
+	for (int shape = 0; shape < 3; ++shape) for (int bw : { 0, 50000, 1000000, 300000 }) for (int64_t lat : { int64_t(0), int64_t(1000000), int64_t(40000000) }) for (int cap : { 0, 1600, 4000, 20000 }) for (int tr = 0; tr < 3; ++tr) {
+		if (!thorough && bw == 300000 && tr != 0) continue;
+		v.push_back(TrafficCfg{ shape, bw, lat, cap, tr });
+	}
+	return v;
+}
+
 std::string route_str(Route const& r)
 {
 	std::string s;
@@ -246,13 +393,14 @@ std::string route_str(Route const& r)
 
 struct QueueEngine : Engine
 {
-	std::vector<Route> routes; int L = 3, NK = 5; bool want09 = true, want10 = true;
+	std::vector<Route> routes; int L = 3, NK = 5; bool want09 = true, want10 = true; std::vector<TrafficCfg> traffic;
 	uint64_t units(Args const& a) override
 	{
 		routes = make_routes(a.thorough());
 		L = a.thorough() ? 4 : 3; NK = a.thorough() ? 7 : 5;
 		want09 = a.property != "C10"; want10 = a.property != "C09";
-		return routes.size() * uint64_t(NK); // unit = (route, kind of first packet)
+		traffic = make_traffic(a.thorough());
+		return routes.size() * uint64_t(NK) + traffic.size(); // unit = (route, kind of first packet), then one unit per traffic scenario
 	}
 	std::vector<int64_t> gap_menu(Route const& r, int prev_kind)
 	{
@@ -272,6 +420,7 @@ struct QueueEngine : Engine
 	}
 	void run_unit(uint64_t u, Ctx& ctx) override
 	{
+		if (u >= routes.size() * uint64_t(NK)) { traffic_unit(size_t(u - routes.size() * uint64_t(NK)), ctx); return; }
 		ctx.watchdog_s = 2;
 		size_t ri = size_t(u / uint64_t(NK)); int k0 = int(u % uint64_t(NK));
 		Route const& r = routes[ri];
@@ -310,6 +459,22 @@ struct QueueEngine : Engine
 			if (ctx.out_of_time()) { ctx.R.exhaustive = false; return; }
 		}
 	}
+	void traffic_unit(size_t i, Ctx& ctx)
+	{
+		ctx.watchdog_s = 60;
+		if (!ctx.next_case()) return;
+		TrafficCfg const& tc = traffic[i];
+		Case c; c.set("traffic", (long long)i).set("thorough", ctx.args.thorough() ? 1 : 0);
+		ctx.begin(c);
+		TrafficResult r = run_traffic(tc, &ctx);
+		ctx.outcome(r.summary);
+		ctx.R.counters["traffic_packets_through_monitored_queues"] += r.in; ctx.R.counters["traffic_model_drops"] += r.drops; ctx.R.counters["traffic_departures_while_backlogged"] += r.backlogged;
+		auto clause_of = [](std::string const& x) { size_t p = x.find(' '); std::string y = x.substr(p + 1); return y.substr(0, y.find(':')); };
+		if (want09) for (auto& f : r.f09) add_violation(ctx, clause_of(f), c, traffic_str(tc) + ": " + f + " | " + r.summary, "traffic/" + clause_of(f));
+		if (want10) for (auto& f : r.f10) add_violation(ctx, clause_of(f), c, traffic_str(tc) + ": " + f + " | " + r.summary, "traffic/" + clause_of(f));
+		if (i == 40) ctx.R.sample(traffic_str(tc) + " => " + r.summary);
+		ctx.end();
+	}
 	void prologue(Ctx& ctx) override
 	{
 		// determinism self-check: the same case twice gives the same trace
@@ -321,6 +486,17 @@ struct QueueEngine : Engine
 	}
 	int replay(Case const& c, Args const& a) override
 	{
+		if (c.has("traffic")) {
+			Args a2 = a; a2.tier = c.num("thorough") ? "thorough" : "quick"; units(a2);
+			TrafficCfg const& tc = traffic.at(size_t(c.num("traffic")));
+			TrafficResult r = run_traffic(tc, nullptr);
+			std::fprintf(stdout, "%s\n%s\n", traffic_str(tc).c_str(), r.summary.c_str());
+			int n = 0;
+			if (want09) for (auto& f : r.f09) { std::fprintf(stdout, "VIOLATION %s\n", f.c_str()); ++n; }
+			if (want10) for (auto& f : r.f10) { std::fprintf(stdout, "VIOLATION %s\n", f.c_str()); ++n; }
+			std::fprintf(stdout, n ? "=> %d violation(s)\n" : "=> ok\n", n);
+			return n ? 1 : 0;
+		}
 		units(a);
 		size_t ri = size_t(c.num("route")); Route const& r = routes.at(ri);
 		std::vector<int> kinds = c.ints("kinds"), gaps = c.ints("gaps"); std::vector<int64_t> times(kinds.size(), 0);
